@@ -1,7 +1,7 @@
 (** Property C11 — the theorems the check counts as obligations.  Nothing but
     statements closed by [exact] and [Print Assumptions]. *)
 From HS Require Import Base.Prelude Base.PyLib C11.Model C11.NodeProofs C11.Election C11.Refute C11.LogProofs C11.LogMatching C11.Progress
-  Gen.RaftLogGen C11.GenTie.
+  C11.Completeness Gen.RaftLogGen C11.GenTie.
 Local Open Scope Z_scope.
 
 (** Each node applies indices 1,2,3,... in order without gaps or repeats, for
@@ -70,10 +70,57 @@ Theorem c11_log_matching : forall l acts, NoDup l ->
 Proof. exact log_matching. Qed.
 Print Assumptions c11_log_matching.
 
-(** Log matching, the per-step fact about replies (the cluster-level
-    statements [leader_completeness_statement] and
-    [state_machine_safety_statement] of C11/LogProofs.v remain stated, not
-    proved, and are checked by the oracle on the implementation).
+(** LEADER COMPLETENESS, cluster level, for EVERY cluster (any duplicate-free id
+    list) and EVERY schedule (deliveries in any order, drops = loss, partitions
+    and crashes, timeouts and heartbeats at any moment, submits at any node):
+    an entry that some node holds at or below its commit index is, at the same
+    index, in the log of every node that is later leader of a greater term.
+    (C11/Ghost.v: history variables — leader log per term, log at election,
+    "node a accepted the first m entries of the term-t leader while in term t",
+    voter's log at the moment of each vote; C11/Step2.v: the 19-clause
+    invariant is kept by every action; C11/LC.v: strong induction on the later
+    term through the intersection of the accepting and the electing quorum.) *)
+Theorem c11_leader_completeness : forall l acts1 acts2, NoDup l ->
+  let w1 := net_run (net_init l) acts1 in
+  let w2 := net_run w1 acts2 in
+  forall a b i e, In a l -> In b l ->
+    i <= commit (nodes w1 a) -> log_get (log (nodes w1 a)) i = Some e ->
+    role (nodes w2 b) = Leader -> term (nodes w1 a) < term (nodes w2 b) ->
+    log_get (log (nodes w2 b)) i = Some e.
+Proof. exact leader_completeness. Qed.
+Print Assumptions c11_leader_completeness.
+
+(** ... and within one state: a leader whose term is at least a node's term
+    holds every entry up to that node's commit index. *)
+Theorem c11_leader_has_committed : forall l acts, NoDup l ->
+  let w := net_run (net_init l) acts in
+  forall a b i e, In a l -> In b l ->
+    i <= commit (nodes w a) -> log_get (log (nodes w a)) i = Some e ->
+    role (nodes w b) = Leader -> term (nodes w a) <= term (nodes w b) ->
+    log_get (log (nodes w b)) i = Some e.
+Proof. exact leader_has_committed. Qed.
+Print Assumptions c11_leader_has_committed.
+
+(** STATE-MACHINE SAFETY, cluster level, every cluster and schedule: no two
+    nodes ever apply different commands at the same log index ([applied] is the
+    node's history of (index, command) pairs handed to the state machine);
+    two nodes never hold different entries at an index both have committed. *)
+Theorem c11_state_machine_safety : forall l acts, NoDup l ->
+  let w := net_run (net_init l) acts in
+  forall a b i c c', In a l -> In b l ->
+    In (i, c) (applied (nodes w a)) -> In (i, c') (applied (nodes w b)) -> c = c'.
+Proof. exact state_machine_safety. Qed.
+Print Assumptions c11_state_machine_safety.
+
+Theorem c11_committed_entries_agree : forall l acts, NoDup l ->
+  let w := net_run (net_init l) acts in
+  forall a b i e e', In a l -> In b l ->
+    i <= commit (nodes w a) -> i <= commit (nodes w b) ->
+    log_get (log (nodes w a)) i = Some e -> log_get (log (nodes w b)) i = Some e' -> e = e'.
+Proof. exact committed_agree. Qed.
+Print Assumptions c11_committed_entries_agree.
+
+(** Log matching, the per-step fact about replies.
     A successful AppendEntries reply reports prev_log_index + len(entries) —
     never more (the defect fixed in 2aaca38) — and up to that index the
     follower's log then agrees term for term with what the leader sent, while
@@ -88,7 +135,8 @@ Theorem c11_log_matching_step_partial : forall n src t lead (pli : nat) plt l lc
 Proof. exact append_entries_reply_verified. Qed.
 Print Assumptions c11_log_matching_step_partial.
 
-(** Leader Append-Only (PARTIAL towards leader completeness): a node that is
+(** Leader Append-Only (one of the ingredients of leader completeness, kept as a
+    per-node theorem; the name keeps its historical suffix): a node that is
     and remains leader of a term never removes or rewrites an entry of its log,
     whatever it is handed. *)
 Theorem c11_leader_append_only_partial : forall n inp,
